@@ -80,6 +80,7 @@ def gen_repo_world(t, family, prop=None):
     # the files may be stored in another encoding than UTF-8; every load is then told so (encoding=...), and that has
     # to reach every file of the import closure
     w.encoding = t.pick([None, None, None, "utf-8-sig", "utf-16"], "file-encoding")
+    w.line_end = t.pick([None, None, None, "\r\n", "\r"], "line-ends-of-the-files")
     for i in range(n):
         d = "" if i == 0 and not t.chance(1, 4, "main-in-sub") else t.pick(DIRS, "dir")
         if family in SP and i > 0:
